@@ -1,10 +1,8 @@
 package object
 
 import (
-	"bytes"
 	"context"
 	"fmt"
-	"strings"
 
 	"github.com/risor-io/risor/errz"
 	"github.com/risor-io/risor/op"
@@ -19,7 +17,6 @@ type List struct {
 
 	// Used to avoid the possibility of infinite recursion when inspecting.
 	// Similar to the usage of Py_ReprEnter in CPython.
-	inspectActive bool
 }
 
 func (ls *List) Type() Type {
@@ -31,23 +28,9 @@ func (ls *List) Value() []Object {
 }
 
 func (ls *List) Inspect() string {
-	// A list can contain itself. Detect if we're already inspecting the list
-	// and return a placeholder if so.
-	if ls.inspectActive {
-		return "[...]"
-	}
-	ls.inspectActive = true
-	defer func() { ls.inspectActive = false }()
-
-	var out bytes.Buffer
-	items := make([]string, 0)
-	for _, e := range ls.items {
-		items = append(items, e.Inspect())
-	}
-	out.WriteString("[")
-	out.WriteString(strings.Join(items, ", "))
-	out.WriteString("]")
-	return out.String()
+	// A list can contain itself: the walk notes the containers it is in (see
+	// cycles.go) and prints a placeholder for one that it meets again
+	return ls.inspectVisit(newInspectVisit())
 }
 
 func (ls *List) GetAttr(name string) (Object, bool) {
